@@ -78,9 +78,13 @@ class SnpFlow(Flow):
 
     # ---- helpers
     def v(self, construct, node, msg):
+        if not self.recording:
+            return
         self.viol.setdefault(construct, "%s (%s)" % (msg, self.f.loc(node)))
 
     def site(self, construct, node, kind):
+        if not self.recording:
+            return
         self.sites.setdefault(construct, (kind, self.f.loc(node)))
 
     def init(self):
@@ -435,8 +439,8 @@ class SnpFlow(Flow):
 
     def ret(self, st, n):
         f = self.f
-        if not self.ctx.is_snprintf_like(f):
-            return
+        if not self.ctx.is_snprintf_like(f) or not any(k.isidentifier() for k in self.acc_keys):
+            return      # the return rule is for functions that accumulate the length in a local variable
         e = strip(n["c"][0]) if n.get("c") and n["c"][0] is not None else None
         c = "return#%d" % self.ctx.ordinal(f, n)
         self.site(c, n, "return")
